@@ -1,6 +1,7 @@
 package syncutils
 
 import (
+	"fmt"
 	"math/rand"
 	"sort"
 	"sync/atomic"
@@ -17,6 +18,15 @@ type counterSUT struct {
 	c       *hive.Counter
 	threads map[int]*sched.Thread
 	nthr    int
+	gate    *sched.Gate  // an Update can be held at the Counter's yield point before its value lock (hook counter-lock)
+	holdFor atomic.Int32 // the thread whose next arrival at the yield point is held
+	held    map[int]int // thread -> delta of its held Update
+}
+
+func (s *counterSUT) releaseHeld() {
+	if s.gate != nil {
+		s.gate.ReleaseAll()
+	}
 }
 
 func init() {
@@ -37,8 +47,20 @@ func (s *counterSUT) Reset(cfg core.Ev) {
 			}
 		}
 	}
+	s.releaseHeld()
 	for _, t := range s.threads {
 		t.Abandon()
+	}
+	s.gate = sched.NewGate()
+	s.held = map[int]int{}
+	s.holdFor.Store(0)
+	gate := s.gate
+	hive.VerifHook = func(p string) {
+		if p == "counter-lock" {
+			if t := s.holdFor.Swap(0); t != 0 {
+				gate.Wait(fmt.Sprintf("held-%d", t))
+			}
+		}
 	}
 	s.c = hive.NewCounter()
 	s.threads = map[int]*sched.Thread{}
@@ -58,6 +80,16 @@ func (s *counterSUT) Apply(e core.Ev) (any, any) {
 	case "Update":
 		d := core.Int(e, "d")
 		f = func() any { return c.Update(d) }
+	case "UpdateHold":
+		d := core.Int(e, "d")
+		s.gate.Hold(fmt.Sprintf("held-%d", tid))
+		s.holdFor.Store(int32(tid))
+		s.held[tid] = d
+		f = func() any { return c.Update(d) }
+	case "UpdateGo":
+		s.gate.Free(fmt.Sprintf("held-%d", tid))
+		s.gate.Release(fmt.Sprintf("held-%d", tid))
+		delete(s.held, tid)
 	case "Get":
 		f = func() any { return c.Get() }
 	case "WaitIsZero":
@@ -71,7 +103,9 @@ func (s *counterSUT) Apply(e core.Ev) (any, any) {
 	default:
 		panic("unknown op")
 	}
-	s.threads[tid].Go(f)
+	if f != nil {
+		s.threads[tid].Go(f)
+	}
 	settle()
 	ret, blocked := []int{}, []int{}
 	var r any = 0
@@ -95,6 +129,17 @@ func (s *counterSUT) Apply(e core.Ev) (any, any) {
 func (s *counterSUT) RandomCfg(r *rand.Rand) core.Ev { return core.Ev{"kind": "Counter"} }
 
 func (s *counterSUT) RandomStimulus(r *rand.Rand) core.Ev {
+	if len(s.held) > 0 && r.Intn(3) == 0 { // let a held Update go on (if the value stays inside the model's range)
+		ids := []int{}
+		for t := range s.held {
+			ids = append(ids, t)
+		}
+		sort.Ints(ids)
+		t := ids[r.Intn(len(ids))]
+		if v := s.c.Get() + s.held[t]; v >= -1 && v <= 2 {
+			return core.Ev{"op": "UpdateGo", "t": t}
+		}
+	}
 	var idle []int
 	for id := 1; id <= s.nthr; id++ {
 		if !s.threads[id].Busy() {
@@ -115,6 +160,9 @@ func (s *counterSUT) RandomStimulus(r *rand.Rand) core.Ev {
 			d = 0
 		}
 		return core.Ev{"op": "Update", "t": t, "d": d}
+	}
+	if r.Intn(6) == 0 {
+		return core.Ev{"op": "UpdateHold", "t": t, "d": 1 - 2*r.Intn(2)}
 	}
 	switch r.Intn(7) {
 	case 0:
